@@ -10,8 +10,7 @@
 
 char *strndup(const char *s, size_t size) {
 	char *ret;
-	size_t slen = strlen(s);
-	size_t len = slen < size ? slen : size;
+	size_t len = strnlen(s, size);	/* never look beyond size characters */
 
 	ret = malloc(len + 1);
 	if (ret == NULL) {
